@@ -31,5 +31,6 @@ Theorem tables_fingerprint :
   SUBLINK_TYPES_src = SUBLINK_TYPES /\
   LINK_TYPES_src = map (fun kc => (fst kc, coll_name (snd kc))) LINK_TYPES /\
   filter (fun k => str_in k ATTRIBUTES) CHILDREN_src = CHILD_ORDER /\
-  USE_CHAIN_src = [s "modules"; s "external_modules"].
+  USE_CHAIN_src = [s "modules"; s "external_modules"] /\
+  FIND_LOCAL_FIRST_src = true.
 Proof. repeat split; reflexivity. Qed.
